@@ -750,6 +750,38 @@ def _pass_through_and_patterns(chk, repo, cv):
                    detail="accepted by the recogniser but unknown to %r: %s" % (c.args[0].value, "".join(miss)), construct=m.ident,
                    text="hex cutter alphabet in " + name)
     chk.ob("REGEX-12", "recogniser / cutter pairs examined (%d)" % n_cut, n_cut >= 1, CV + ":1", nontrivial=False)
+    # the event-list splitter keeps `event{condition}` whole - one condition at a time: the brace group of its pattern is lazy (`{.*?}`) or excludes
+    # the closing brace; a greedy `{.*}` runs from the first `{` to the last `}` and swallows every entry in between
+    sel = repo.func(UF, "Util.string_to_event_list")
+    chk.analysed(sel)
+    pats_ = [c for c in sel.calls() if call_attr(c) in ("findall", "split", "finditer") and dotted(c.func.value) == "re" and c.args and isinstance(c.args[0], ast.Constant)
+             and "{" in str(c.args[0].value)]
+    chk.need(pats_, "REGEX-12", "string_to_event_list splits around brace groups with a pattern", sel)
+
+    def _greedy_brace(p_):
+        bad = []
+
+        def rec(seq):
+            items = list(seq)
+            for i_, (op, av) in enumerate(items):
+                nm = str(op)
+                if nm == "MAX_REPEAT" and i_ > 0 and str(items[i_ - 1][0]) == "LITERAL" and items[i_ - 1][1] == ord("{"):
+                    inner = list(av[2])
+                    if len(inner) == 1 and str(inner[0][0]) == "ANY":
+                        bad.append("greedy `.` repeat after `{`")
+                if nm in ("MAX_REPEAT", "MIN_REPEAT"):
+                    rec(av[2])
+                elif nm == "SUBPATTERN":
+                    rec(av[3])
+                elif nm == "BRANCH":
+                    for b_ in av[1]:
+                        rec(b_)
+        rec(_re._parser.parse(p_))
+        return bad
+    for c in pats_:
+        bad = _greedy_brace(c.args[0].value)
+        chk.ob("REGEX-12", "the brace group of the event-list pattern ends at the first closing brace", not bad, sel.where(c), detail="%r: %s" % (c.args[0].value, bad),
+               construct=sel.ident, text="event list brace group")
     # dict|k:v : only a mapping (or nothing) is a dict: every path of _validate_dict that reaches the key/value loop for item_type "dict" has
     # tested isinstance(item, dict); a string or list is refused, not split into keys (that is the event_handler form)
     from sa.helpers import feasible_paths
@@ -871,6 +903,7 @@ def battery():
     from sa.battery import M
     Y = "mpf/config_spec.yaml"
     return [
+        M("event list brace group made greedy", UF, "r'([\\w|-]+?\\{.*?\\}|[\\w|-]+)'", "r'([\\w|-]+?\\{.*\\}|[\\w|-]+)'", "REGEX-12"),
         M("or_token validators drop the spec's range", CV, "            return func(item, validation_failure_info, param)", "            return func(item, validation_failure_info)", "SIB-6"),
         M("merged specs cached on the class", CV, "    @lru_cache(1024)\n    def build_spec(self, config_spec, base_spec):\n        \"\"\"Build config spec out of two or more specs.\"\"\"\n", "    _built = {}\n\n    def build_spec(self, config_spec, base_spec):\n        \"\"\"Build config spec out of two or more specs.\"\"\"\n        if (config_spec, base_spec) in self._built:\n            return self._built[(config_spec, base_spec)]\n        self._built[(config_spec, base_spec)] = {}\n", "SHARED-0"),
         M("spec uses unknown validator", Y, "    level_x: single|int|0", "    level_x: single|integer|0", "TABLE-2"),
